@@ -324,7 +324,8 @@ pub fn c16(out: &mut dyn Write, tier: &str, rng: &mut Rng, st: &mut Stats) {
                         let s = rows.iter().map(|r| {
                             let mut v: Vec<String> = r.iter().map(|nm| hex(nm.as_bytes())).collect();
                             v.sort();
-                            v.join(".")
+                            // the empty vertex set is a set like any other
+                            if v.is_empty() { "EMPTY".to_string() } else { v.join(".") }
                         }).collect::<Vec<_>>().join(";");
                         if s.is_empty() { ";".to_string() } else { s }
                     }
